@@ -25,20 +25,9 @@ Qed.
 Lemma run_ok_app a b : run_ok a = true -> run_ok b = true -> run_ok (a ++ b) = true.
 Proof. unfold run_ok. intros. rewrite forallb_app. now rewrite H, H0. Qed.
 
-Lemma index_prefix0 m x : is_prefix m x = true -> index m x = Some 0.
-Proof. intros H. destruct x; cbn [index]; now rewrite H. Qed.
-
-Lemma index_zero m x : index m x = Some 0 -> is_prefix m x = true.
-Proof.
-  destruct x as [|y x].
-  - rewrite index_nil. destruct (is_prefix m []); [auto|discriminate].
-  - rewrite index_cons. destruct (is_prefix m (y :: x)); [auto|].
-    destruct (index m x); cbn; intros H; [inversion H; lia|discriminate].
-Qed.
-
 Lemma fm_run_none pre : run_ok pre = true -> first_match pre start_matches = None.
 Proof.
-  intros H. apply first_match_is. cbn. intros j m Hn.
+  intros H. apply fm_is. cbn. intros j m Hn.
   destruct (start_hd _ _ Hn) as (c & Hh & Hc).
   pose proof (index_skip_run m c pre [] Hh (run_ok_notin _ _ H Hc)) as E. rewrite app_nil_r in E. rewrite E.
   rewrite index_nil. destruct m; [discriminate|]. reflexivity.
@@ -50,7 +39,7 @@ Lemma fm_after_run pre x i :
   first_match (pre ++ x) start_matches = Some (lenN pre, i).
 Proof.
   intros Hr Hi Hp Hmin. destruct (marker_lens i Hi) as (Hn & _ & _).
-  apply first_match_is. split.
+  apply fm_is. split.
   - exists (mk_sm i). split; [auto|]. destruct (start_hd _ _ Hn) as (c & Hh & Hc).
     rewrite (index_skip_run _ c pre x Hh (run_ok_notin _ _ Hr Hc)), (index_prefix0 _ _ Hp). cbn. f_equal. lia.
   - intros j m q Hnj Hq. destruct (start_hd _ _ Hnj) as (c & Hh & Hc).
